@@ -86,6 +86,11 @@ def run(cfile, workdir, name, entry, enforce=None, replace=(), loop_contracts=Fa
     res = RES.findall(out)
     summary = re.search(r"\*\* (\d+) of (\d+) failed", out)
     wall = time.time() - t0
+    traces = {}
+    for m in re.finditer(r"^Trace for ([^\n:]+):\n(.*?)(?=^Trace for |^\*\* \d+ of \d+ failed|\Z)", out, re.M | re.S):
+        traces.setdefault(m.group(1).strip(), m.group(2))
+    wit = {k: witness_values(v) for k, v in traces.items()}
+    ghosts = {k: witness_values(v, prefix="jpv_") for k, v in traces.items()}
     keep = out if len(out) < 400000 else out[:100000] + "\n...[cut]...\n" + out[-250000:]
     log += keep
     if "ignoring forall" in out or "ignoring exists" in out:
@@ -102,7 +107,7 @@ def run(cfile, workdir, name, entry, enforce=None, replace=(), loop_contracts=Fa
         return dict(status="undecided", reason="UNKNOWN obligations", obligations=ntot, discharged=ntot - len(unknown), failed=[], wall_s=wall, log=log, cmd=cb)
     status = "fail" if failed else "pass"
     return dict(status=status, reason="", obligations=ntot, discharged=ntot - nfail, failed=failed, wall_s=wall, log=log, cmd=cb,
-                all=[(i, t, s) for (i, t, s) in res])
+                all=[(i, t, s) for (i, t, s) in res], witness_by_prop=wit, ghost_by_prop=ghosts)
 
 
 TRACE_ASSIGN = re.compile(r"^\s*([A-Za-z_][\w\.\[\]\$:>\-]*)=(.+?)\s*(?:\((?:[01 ]+|\?)\))?\s*$")
